@@ -166,6 +166,62 @@ func main() {
 		if len(mm) > 0 {
 			os.Exit(1)
 		}
+	case "spec":
+		specs := buildCorpus()
+		q := 0
+		for _, sp := range specs {
+			if _, err := ParseTemplate("L0", sp.Text); err != nil {
+				fmt.Println("BAD", sp.Name, err)
+			}
+			if sp.Tags["quick"] {
+				q++
+			}
+			if len(os.Args) > 2 && strings.Contains(sp.Name, os.Args[2]) {
+				fmt.Println(sp.Name, "\n   ", sp.Text)
+			}
+		}
+		fmt.Printf("%d templates (%d quick)\n", len(specs), q)
+	case "try":
+		e := loadDefault()
+		fmt.Println("loaded in", loadTime)
+		tpl, err := ParseTemplate("L0", os.Args[3])
+		if err != nil {
+			fmt.Println(err)
+			os.Exit(2)
+		}
+		params := map[string]string{}
+		for _, kv := range os.Args[4:] {
+			if i := strings.Index(kv, "="); i > 0 {
+				params[kv[:i]] = kv[i+1:]
+			}
+		}
+		job := &Job{Name: "try", Harness: os.Args[2], Lines: map[string]*Template{"L0": tpl}, Params: params}
+		t0 := time.Now()
+		jr := e.RunJob(job, 16)
+		fmt.Printf("%d paths in %v\n", len(jr.Paths), time.Since(t0))
+		for _, p := range jr.Paths {
+			fmt.Printf("path %v end=%s %s steps=%d decided=%d unk=%d reached=%v\n", p.Trail, p.End, trunc(p.Msg, 300), p.Steps, p.Decided, p.UnknownFeas, p.Reached)
+			for _, ev := range p.Events {
+				if ev.Kind == "emit" {
+					fmt.Printf("   emit %s\n", trunc(show(ev.Args[0]), 600))
+				}
+			}
+			for _, ob := range p.Obligations {
+				fmt.Printf("   ob %s: %s %s\n", ob.ID, ob.Result, trunc(ob.Details, 200))
+				if ob.Model != nil {
+					fmt.Printf("      model %v %v\n", ob.Model.Str, ob.Model.Bool)
+				}
+			}
+			for _, n := range p.Notes {
+				fmt.Printf("   note %s\n", n)
+			}
+			if os.Getenv("GOSYM_SHOWPC") != "" {
+				for _, t := range p.PC {
+					fmt.Printf("   pc %s\n", trunc(t.SMT(), 300))
+				}
+			}
+		}
+		printSolverStats()
 	case "check":
 		fs := flag.NewFlagSet("check", flag.ExitOnError)
 		tier := fs.String("tier", "quick", "quick|thorough")
@@ -174,5 +230,14 @@ func main() {
 	default:
 		fmt.Fprintln(os.Stderr, "unknown command")
 		os.Exit(2)
+	}
+}
+
+func printSolverStats() {
+	fmt.Printf("init: %.2fs total, %d steps\n", float64(initNanos)/1e9, initSteps)
+	fmt.Printf("query cache hits: %d\n", cacheHits)
+	fmt.Printf("decided by key-domain reasoning without solver: %d\n", domainDecided)
+	for name, st := range solverStats {
+		fmt.Printf("solver %s: %d queries (sat %d unsat %d unknown %d) %.2fs\n", name, st.Queries, st.Sat, st.Unsat, st.Unknown, float64(st.TimeNanos)/1e9)
 	}
 }
